@@ -18,9 +18,9 @@ structure SubSample where
   deriving DecidableEq, Repr
 
 def encSubSample (s : SubSample) : Bytes := encU16 s.clear ++ encU32 s.encrypted
-def decSubSample (bs : Bytes) : Option (SubSample × Bytes) := do
-  let (c, bs) ← decU16 bs
-  let (e, bs) ← decU32 bs
+def decSubSample (bs : Bytes) : Option (SubSample × Bytes) :=
+  andThen (decU16 bs) fun c bs =>
+  andThen (decU32 bs) fun e bs =>
   some ({ clear := c, encrypted := e }, bs)
 
 def SubSample.Wf (s : SubSample) : Prop := s.clear < 65536 ∧ s.encrypted < 4294967296
@@ -45,32 +45,42 @@ structure SencCtx where
 def SencCtx.sizeAt (c : SencCtx) (i : Nat) : Option Nat :=
   if c.saizSizes.isEmpty then some c.saizDefault else c.saizSizes[i]?
 
-/-- `CencSampleAuxiliaryData.encode` – mp4.py:2440-2449 -/
-def encSencSample (flags : Nat) (s : SencSample) : Bytes :=
-  s.iv ++ (if hasBit flags 1 && !s.subsamples.isEmpty then
-    encU16 s.subsamples.length ++ encMany encSubSample s.subsamples else [])
+/-- the sub-sample table of one sample: written only when the box has
+`flags & 2` and the sample has sub-samples – `CencSampleAuxiliaryData.encode`,
+mp4.py:2440-2449 -/
+def encSubs (withSubs : Bool) (subs : List SubSample) : Bytes :=
+  if withSubs && !subs.isEmpty then encU16 subs.length ++ encMany encSubSample subs else []
 
-/-- `CencSampleAuxiliaryData.parse(src, size, iv_size, flags, …)` – mp4.py:2415-2438 -/
-def decSencSample (flags ivSize size : Nat) (bs : Bytes) : Option (SencSample × Bytes) := do
-  let (iv, bs) ← takeN ivSize bs
-  if hasBit flags 1 && decide (ivSize + 2 ≤ size) then
-    let (count, bs) ← decU16 bs
-    if size < count * 6 then none else      -- `raise ValueError('Invalid subsample_count')`
-    let (subs, bs) ← decMany decSubSample count bs
-    some ({ iv := iv, subsamples := subs }, bs)
-  else some ({ iv := iv, subsamples := [] }, bs)
+/-- read when `flags & 2` and the `saiz` size leaves room for the count –
+`CencSampleAuxiliaryData.parse`, mp4.py:2431-2437 -/
+def decSubs (withSubs : Bool) (ivSize size : Nat) (bs : Bytes) : Option (List SubSample × Bytes) :=
+  if withSubs && decide (ivSize + 2 ≤ size) then
+    andThen (decU16 bs) fun count bs =>
+    if size < count * 6 then none      -- `raise ValueError('Invalid subsample_count')`
+    else decMany decSubSample count bs
+  else some ([], bs)
+
+def encSencSample (withSubs : Bool) (s : SencSample) : Bytes :=
+  s.iv ++ encSubs withSubs s.subsamples
+
+def decSencSample (withSubs : Bool) (ivSize size : Nat) (bs : Bytes) : Option (SencSample × Bytes) :=
+  andThen (takeN ivSize bs) fun iv bs =>
+  andThen (decSubs withSubs ivSize size bs) fun subs bs =>
+  some ({ iv := iv, subsamples := subs }, bs)
 
 /-- the sample loop of `CencSampleEncryptionBox.parse` – mp4.py:2487-2495: entry
 `i` is parsed with size `sizeAt i`; an entry of size 0 is skipped -/
-def decSencSamples (flags ivSize : Nat) (c : SencCtx) : Nat → Nat → Bytes →
+def decSencSamples (withSubs : Bool) (ivSize : Nat) (c : SencCtx) : Nat → Nat → Bytes →
     Option (List SencSample × Bytes)
   | 0, _, bs => some ([], bs)
-  | n+1, i, bs => do
-    let size ← c.sizeAt i
-    if size = 0 then decSencSamples flags ivSize c n (i+1) bs else
-    let (s, bs) ← decSencSample flags ivSize size bs
-    let (ss, bs) ← decSencSamples flags ivSize c n (i+1) bs
-    some (s :: ss, bs)
+  | n+1, i, bs =>
+    match c.sizeAt i with
+    | none => none
+    | some size =>
+      if size = 0 then decSencSamples withSubs ivSize c n (i+1) bs else
+      andThen (decSencSample withSubs ivSize size bs) fun s bs =>
+      andThen (decSencSamples withSubs ivSize c n (i+1) bs) fun ss bs =>
+      some (s :: ss, bs)
 
 structure Senc where
   version : Nat
@@ -87,53 +97,67 @@ def sencFlags (x : Senc) : Nat :=
   if x.samples.any (fun s => !s.subsamples.isEmpty) && !hasBit x.flags 1 then x.flags + 2
   else x.flags
 
-def encSenc (x : Senc) : Bytes :=
-  let flags := sencFlags x
-  encU8 x.version ++ (encU24 flags ++
-    ((if hasBit flags 0 then encU24 x.algorithm_id ++ (encU8 x.iv_size ++ x.kid) else []) ++
-    (encU32 x.samples.length ++ encMany (encSencSample flags) x.samples)))
+/-- `algorithm_id`, `iv_size`, `kid` – only with `flags & 1` -/
+def encSencOverride (present : Bool) (alg iv : Nat) (kid : Bytes) : Bytes :=
+  if present then encU24 alg ++ (encU8 iv ++ kid) else []
 
-def decSenc' (c : SencCtx) (bs : Bytes) : Option (Senc × Bytes) := do
-  let (version, bs) ← decU8 bs
-  let (flags, bs) ← decU24 bs
+/-- sample count and samples -/
+def encSencTail (withSubs : Bool) (samples : List SencSample) : Bytes :=
+  encU32 samples.length ++ encMany (encSencSample withSubs) samples
+
+def decSencTail (withSubs : Bool) (iv : Nat) (c : SencCtx) (bs : Bytes) :
+    Option (List SencSample × Bytes) :=
+  andThen (decU32 bs) fun n bs =>
+  if iv ≠ 8 ∧ iv ≠ 16 then none        -- `assert rv['iv_size'] in {8, 16}`
+  else decSencSamples withSubs iv c n 0 bs
+
+def encSencWith (flags : Nat) (x : Senc) : Bytes :=
+  encU8 x.version ++ (encU24 flags ++
+    (encSencOverride (hasBit flags 0) x.algorithm_id x.iv_size x.kid ++
+     encSencTail (hasBit flags 1) x.samples))
+
+def encSenc (x : Senc) : Bytes := encSencWith (sencFlags x) x
+
+/-- the part of `parse` after version/flags -/
+def decSencBody (version flags : Nat) (c : SencCtx) (bs : Bytes) : Option (Senc × Bytes) :=
   if hasBit flags 0 then
-    let (alg, bs) ← decU24 bs
-    let (iv0, bs) ← decU8 bs
-    let iv := if iv0 = 0 then 8 else iv0
-    let (kid, bs) ← takeN 16 bs
-    let (n, bs) ← decU32 bs
-    if iv ≠ 8 ∧ iv ≠ 16 then none else     -- `assert rv['iv_size'] in {8, 16}`
-    let (samples, bs) ← decSencSamples flags iv c n 0 bs
-    some ({ version := version, flags := flags, algorithm_id := alg, iv_size := iv, kid := kid,
-            samples := samples }, bs)
+    andThen (decU24 bs) fun alg bs =>
+    andThen (decU8 bs) fun iv0 bs =>
+    andThen (takeN 16 bs) fun kid bs =>
+    andThen (decSencTail (hasBit flags 1) (if iv0 = 0 then 8 else iv0) c bs) fun samples bs =>
+    some ({ version := version, flags := flags, algorithm_id := alg,
+            iv_size := (if iv0 = 0 then 8 else iv0), kid := kid, samples := samples }, bs)
   else
-    let (n, bs) ← decU32 bs
-    if c.ivSize ≠ 8 ∧ c.ivSize ≠ 16 then none else
-    let (samples, bs) ← decSencSamples flags c.ivSize c n 0 bs
+    andThen (decSencTail (hasBit flags 1) c.ivSize c bs) fun samples bs =>
     some ({ version := version, flags := flags, algorithm_id := 0, iv_size := c.ivSize, kid := [],
             samples := samples }, bs)
+
+def decSenc' (c : SencCtx) (bs : Bytes) : Option (Senc × Bytes) :=
+  andThen (decU8 bs) fun version bs =>
+  andThen (decU24 bs) fun flags bs =>
+  decSencBody version flags c bs
 
 def decSenc (c : SencCtx) : Bytes → Option Senc := exact (decSenc' c)
 
 /-- what sample `i` (counting from `i0`) needs from the context: the `saiz` size
 selects exactly the layout the sample is written in -/
-def sencSampleOk (flags ivSize : Nat) (size : Nat) (s : SencSample) : Prop :=
+def sencSampleOk (withSubs : Bool) (ivSize : Nat) (size : Nat) (s : SencSample) : Prop :=
   s.iv.length = ivSize ∧ size ≠ 0 ∧ (∀ u ∈ s.subsamples, u.Wf) ∧
-  (if hasBit flags 1 then
+  (if withSubs then
      (if s.subsamples.isEmpty then size < ivSize + 2
       else ivSize + 2 ≤ size ∧ s.subsamples.length < 65536 ∧ s.subsamples.length * 6 ≤ size)
    else s.subsamples = [])
-instance (f iv sz : Nat) (s : SencSample) : Decidable (sencSampleOk f iv sz s) := by
+instance (f : Bool) (iv sz : Nat) (s : SencSample) : Decidable (sencSampleOk f iv sz s) := by
   unfold sencSampleOk; infer_instance
 
-def sencSamplesOk (flags ivSize : Nat) (c : SencCtx) : Nat → List SencSample → Prop
+def sencSamplesOk (flags : Bool) (ivSize : Nat) (c : SencCtx) : Nat → List SencSample → Prop
   | _, [] => True
   | i, s :: ss =>
     (match c.sizeAt i with
      | some size => sencSampleOk flags ivSize size s
      | none => False) ∧ sencSamplesOk flags ivSize c (i+1) ss
 
-instance sencSamplesOkDec (flags ivSize : Nat) (c : SencCtx) :
+instance sencSamplesOkDec (flags : Bool) (ivSize : Nat) (c : SencCtx) :
     ∀ (i : Nat) (l : List SencSample), Decidable (sencSamplesOk flags ivSize c i l)
   | _, [] => isTrue trivial
   | i, s :: ss =>
@@ -147,7 +171,7 @@ def Senc.Wf (c : SencCtx) (x : Senc) : Prop :=
   (if hasBit x.flags 0 then
      x.algorithm_id < 16777216 ∧ (x.iv_size = 8 ∨ x.iv_size = 16) ∧ x.kid.length = 16
    else x.algorithm_id = 0 ∧ x.iv_size = c.ivSize ∧ (c.ivSize = 8 ∨ c.ivSize = 16) ∧ x.kid = []) ∧
-  sencSamplesOk x.flags x.iv_size c 0 x.samples
+  sencSamplesOk (hasBit x.flags 1) x.iv_size c 0 x.samples
 instance (c : SencCtx) (x : Senc) : Decidable (x.Wf c) := by unfold Senc.Wf; infer_instance
 
 /-! ### pssh -/
@@ -165,25 +189,26 @@ def Pssh.Wf (x : Pssh) : Prop :=
   (∀ k ∈ x.key_ids, k.length = 16) ∧ x.data.length < 4294967296
 instance (x : Pssh) : Decidable x.Wf := by unfold Pssh.Wf; infer_instance
 
+/-- `kid_count` + key ids – only when `version > 0` -/
+def encPsshKids (present : Bool) (kids : List Bytes) : Bytes :=
+  if present then encU32 kids.length ++ encMany id kids else []
+
+def decPsshKids (present : Bool) (bs : Bytes) : Option (List Bytes × Bytes) :=
+  if present then andThen (decU32 bs) fun n bs => decMany (takeN 16) n bs
+  else some ([], bs)
+
 def encPssh (x : Pssh) : Bytes :=
   encU8 x.version ++ (encU24 x.flags ++ (x.system_id ++
-    ((if 0 < x.version then encU32 x.key_ids.length ++ encMany id x.key_ids else []) ++
-    (encU32 x.data.length ++ x.data))))
+    (encPsshKids (decide (0 < x.version)) x.key_ids ++ (encU32 x.data.length ++ x.data))))
 
-def decPssh' (bs : Bytes) : Option (Pssh × Bytes) := do
-  let (version, bs) ← decU8 bs
-  let (flags, bs) ← decU24 bs
-  let (sys, bs) ← takeN 16 bs
-  if 0 < version then
-    let (n, bs) ← decU32 bs
-    let (kids, bs) ← decMany (takeN 16) n bs
-    let (dl, bs) ← decU32 bs
-    let (data, bs) ← takeN dl bs
-    some ({ version := version, flags := flags, system_id := sys, key_ids := kids, data := data }, bs)
-  else
-    let (dl, bs) ← decU32 bs
-    let (data, bs) ← takeN dl bs
-    some ({ version := version, flags := flags, system_id := sys, key_ids := [], data := data }, bs)
+def decPssh' (bs : Bytes) : Option (Pssh × Bytes) :=
+  andThen (decU8 bs) fun version bs =>
+  andThen (decU24 bs) fun flags bs =>
+  andThen (takeN 16 bs) fun sys bs =>
+  andThen (decPsshKids (decide (0 < version)) bs) fun kids bs =>
+  andThen (decU32 bs) fun dl bs =>
+  andThen (takeN dl bs) fun data bs =>
+  some ({ version := version, flags := flags, system_id := sys, key_ids := kids, data := data }, bs)
 
 def decPssh : Bytes → Option Pssh := exact decPssh'
 
